@@ -179,8 +179,10 @@ class Machine:
             return zoo.Leaf(v=r.randint(0, 2), tag=r.choice(["", "t"]), origin=o), "Leaf"
         if k < 0.82:
             return zoo.Leaf2(v=r.randint(0, 1), origin=o), "Leaf2"
-        if k < 0.92:
+        if k < 0.88:
             return zoo.Picky(v=r.randint(0, 1), origin=o), "Picky"
+        if k < 0.93:
+            return zoo.PickyLate(v=r.randint(0, 1), origin=o), "PickyLate"
         return zoo.Falsy(n=r.randint(0, 1), origin=o), "Falsy"
 
     def op_construct(self):
@@ -356,11 +358,16 @@ class Machine:
         fails = r.random() < 0.3
         kids = [self.tok(c) for c in self._kids_after(x, kw)]
         type_check = False
+        late = False
         if fails:
             # the ways a replace() can fail: unknown field (TypeError), init=False field (ValueError), the node
             # class' own validation (RuntimeError), runtime type checking (InvalidTypes)
             route = r.choice(["nofield", "id", "own-validation", "runtime-types"])
-            if route == "own-validation" and isinstance(x, zoo.Picky):
+            if isinstance(x, zoo.PickyLate) and r.random() < 0.7:
+                # fails after the would-be new node was registered (possibly under the original's id)
+                kw = {"note": "bad"} if r.random() < 0.6 else dict(kw, note="bad")
+                late = True
+            elif route == "own-validation" and isinstance(x, zoo.Picky):
                 kw["v"] = 13
             elif route == "runtime-types" and any(f.name in ("v", "n") for f in zoo.prop_fields(type(x))):
                 kw["v" if hasattr(x, "v") else "n"] = "not an int"
@@ -389,6 +396,12 @@ class Machine:
             del before, after
             op = [A("replace"), v, tx, True, [A("kids")] + kids, self._fresh_sexp()]
             del x, live, kw
+            if late:
+                # the rejected node was constructed (and is garbage now): the model has no such operation and its
+                # state is unaffected; the real-code oracles (registry unchanged, frame) have run
+                self.descr.append(f"#{tx}.replace(note='bad') raises after registration")
+                self.descr.pop()
+                return None
             return (op, [A("raise")], f"#{tx}.replace(…) raises")
             return
         del before
